@@ -20,6 +20,7 @@ structure NextPost (s s' : PhraseSel) : Prop where
   com : s'.com = s.com
   strategy : s'.strategy = s.strategy
   range : RangeOK s'
+  keep : Keep s s'
 
 theorem single_true (d : D) (s : PhraseSel) (hr : RangeOK s) (h1 : s.end_ = s.begin_ + 1)
     (hw : ∀ c, Sym.syl c ∈ s.com.symbols → env.hasPhrase d [c] s.strategy = true) :
@@ -47,7 +48,7 @@ theorem next_go_shrink (d : D) : ∀ (fuel : Nat) (s : PhraseSel), RangeOK s →
          fun j a b => hr.syl j a (by have : j < s.end_ - 1 := b; omega)⟩
       rw [rangeHasPhrase_ok _ d (by show s.begin_ ≤ s.end_ - 1; omega) hr'.le]
       cases hb : env.hasPhrase d (sylPrefix (List.take (s.end_ - 1 - s.begin_) (List.drop s.begin_ s.com.symbols))) s.strategy with
-      | true => exact .ok ⟨rfl, rfl, hr'⟩
+      | true => exact .ok ⟨rfl, rfl, hr', Keep.setEnd hf _⟩
       | false =>
         dsimp only
         have hlong : s.begin_ + 2 ≤ s.end_ - 1 := by
@@ -59,7 +60,7 @@ theorem next_go_shrink (d : D) : ∀ (fuel : Nat) (s : PhraseSel), RangeOK s →
             injection this with this
             rw [this] at hb; cases hb
         obtain ⟨s', hq, hp⟩ := ih { s with end_ := s.end_ - 1 } hr' hlong (by show s.end_ - 1 - s.begin_ ≤ fuel + 1; omega) hw
-        exact ⟨s', hq, ⟨hp.com, hp.strategy, hp.range⟩⟩
+        exact ⟨s', hq, ⟨hp.com, hp.strategy, hp.range, (Keep.setEnd hf _).trans hp.keep⟩⟩
     · rw [if_neg hf]
       try dsimp only
       rw [if_neg (by simp only [beq_iff_eq]; omega)]
@@ -68,7 +69,7 @@ theorem next_go_shrink (d : D) : ∀ (fuel : Nat) (s : PhraseSel), RangeOK s →
          fun j a b => hr.syl j (by have : s.begin_ + 1 ≤ j := a; omega) b⟩
       rw [rangeHasPhrase_ok _ d (by show s.begin_ + 1 ≤ s.end_; omega) hr'.le]
       cases hb : env.hasPhrase d (sylPrefix (List.take (s.end_ - (s.begin_ + 1)) (List.drop (s.begin_ + 1) s.com.symbols))) s.strategy with
-      | true => exact .ok ⟨rfl, rfl, hr'⟩
+      | true => exact .ok ⟨rfl, rfl, hr', Keep.setBegin hf _⟩
       | false =>
         dsimp only
         have hlong : s.begin_ + 1 + 2 ≤ s.end_ := by
@@ -80,7 +81,7 @@ theorem next_go_shrink (d : D) : ∀ (fuel : Nat) (s : PhraseSel), RangeOK s →
             injection this with this
             rw [this] at hb; cases hb
         obtain ⟨s', hq, hp⟩ := ih { s with begin_ := s.begin_ + 1 } hr' hlong (by show s.end_ - (s.begin_ + 1) ≤ fuel + 1; omega) hw
-        exact ⟨s', hq, ⟨hp.com, hp.strategy, hp.range⟩⟩
+        exact ⟨s', hq, ⟨hp.com, hp.strategy, hp.range, (Keep.setBegin hf _).trans hp.keep⟩⟩
 
 /-- **`PhraseSelector::next`** -/
 theorem next_ok (d : D) (s : PhraseSel) (hr : RangeOK s)
@@ -103,7 +104,7 @@ theorem next_ok (d : D) (s : PhraseSel) (hr : RangeOK s)
       have hr' : RangeOK { s with end_ := s.nextBreakPoint s.begin_ } := ⟨n4, n2, n3⟩
       rw [rangeHasPhrase_ok _ d (by show s.begin_ ≤ s.nextBreakPoint s.begin_; omega) hr'.le]
       cases hb : env.hasPhrase d (sylPrefix (List.take (s.nextBreakPoint s.begin_ - s.begin_) (List.drop s.begin_ s.com.symbols))) s.strategy with
-      | true => exact .ok ⟨rfl, rfl, hr'⟩
+      | true => exact .ok ⟨rfl, rfl, hr', Keep.setEnd hf _⟩
       | false =>
         dsimp only
         have hlong : s.begin_ + 2 ≤ s.nextBreakPoint s.begin_ := by
@@ -117,7 +118,7 @@ theorem next_ok (d : D) (s : PhraseSel) (hr : RangeOK s)
             rw [this] at hb; cases hb
         obtain ⟨s', hq, hp⟩ := next_go_shrink (env := env) d f { s with end_ := s.nextBreakPoint s.begin_ } hr' hlong
           (by show s.nextBreakPoint s.begin_ - s.begin_ ≤ f + 1; simp only [Composition.len] at hfge; omega) hw
-        exact ⟨s', hq, ⟨hp.com, hp.strategy, hp.range⟩⟩
+        exact ⟨s', hq, ⟨hp.com, hp.strategy, hp.range, (Keep.setEnd hf _).trans hp.keep⟩⟩
     · rw [if_neg hf]
       try dsimp only
       rw [if_pos (by simp only [beq_iff_eq]; omega)]
@@ -132,7 +133,7 @@ theorem next_ok (d : D) (s : PhraseSel) (hr : RangeOK s)
       rw [rangeHasPhrase_ok _ d (by show s.afterPreviousBreakPoint (s.begin_ + 1 - 1) ≤ s.end_; omega) hr'.le]
       cases hb : env.hasPhrase d (sylPrefix (List.take (s.end_ - s.afterPreviousBreakPoint (s.begin_ + 1 - 1))
           (List.drop (s.afterPreviousBreakPoint (s.begin_ + 1 - 1)) s.com.symbols))) s.strategy with
-      | true => exact .ok ⟨rfl, rfl, hr'⟩
+      | true => exact .ok ⟨rfl, rfl, hr', Keep.setBegin hf _⟩
       | false =>
         dsimp only
         have hlong : s.afterPreviousBreakPoint (s.begin_ + 1 - 1) + 2 ≤ s.end_ := by
@@ -148,7 +149,7 @@ theorem next_ok (d : D) (s : PhraseSel) (hr : RangeOK s)
           { s with begin_ := s.afterPreviousBreakPoint (s.begin_ + 1 - 1) } hr' hlong
           (by show s.end_ - s.afterPreviousBreakPoint (s.begin_ + 1 - 1) ≤ f + 1
               simp only [Composition.len] at hfge; have := hr.le; omega) hw
-        exact ⟨s', hq, ⟨hp.com, hp.strategy, hp.range⟩⟩
+        exact ⟨s', hq, ⟨hp.com, hp.strategy, hp.range, (Keep.setBegin hf _).trans hp.keep⟩⟩
 
 /-! ## Down / Space -/
 
@@ -169,7 +170,7 @@ theorem selDownSpace_ok (hE : EnvOK env G) {sh : Shared D L} (h : ShInv env G sh
       refine .ok ⟨h, fun _ _ => ⟨?_, fun _ => .inl ⟨p', rfl⟩⟩, fun st hst => (by cases hst)⟩
       show PhraseOK env sh p'
       exact ⟨hn.com.trans h1.com, hn.range.lt, hn.range.le, hn.range.syl, fun c hc => by
-        rw [hn.strategy]; exact h1.word c (by rw [← hn.com]; exact hc)⟩
+        rw [hn.strategy]; exact h1.word c (by rw [← hn.com]; exact hc), h1.anchor.keep hn.keep⟩
     · next hns =>
       refine .ok ⟨h, fun _ _ => ⟨?_, fun ha => ?_⟩, fun st hst => (by cases hst)⟩
       · exact hs.sel
@@ -190,12 +191,12 @@ theorem retarget_ok {sh : Shared D L} (h : ShInv env G sh) (s : Selecting)
   | syl k =>
     simp only [Sym.isSyl, if_true]
     have hk : sh.com.inner.symbols[sh.com.cursor]? = some (Sym.syl k) := by rw [List.getElem?_eq_getElem hlt, hx]
-    obtain ⟨p, hq, p1, p2, p3, p4, p5⟩ := init_ok (env := env) (!sh.options.phraseChoiceRearward) sh.options.lookupStrategy
+    obtain ⟨p, hq, p1, p2, p3, p4, p5, p6, _, _⟩ := init_ok (env := env) (!sh.options.phraseChoiceRearward) sh.options.lookupStrategy
       sh.com.inner sh.com.cursor sh.dict hlt ⟨k, hk⟩ (fun c hc => (h.word c hc).2)
     rw [hq]
     refine .ok ⟨h, _, rfl, ?_, fun _ => .inl ⟨p, rfl⟩⟩
     show PhraseOK env sh p
-    exact ⟨p1, p3, by rw [p1]; exact p4, by rw [p1]; exact p5, fun c hc => by rw [p2]; rw [p1] at hc; exact (h.word c hc).2⟩
+    exact ⟨p1, p3, by rw [p1]; exact p4, by rw [p1]; exact p5, (fun c hc => by rw [p2]; rw [p1] at hc; exact (h.word c hc).2), p6⟩
   | chr ch =>
     simp only [Sym.isSyl]
     have hk : sh.com.inner.symbols[sh.com.cursor]? = some (Sym.chr ch) := by rw [List.getElem?_eq_getElem hlt, hx]
